@@ -56,7 +56,7 @@ class C16Machine(Machine):
            "target_column_last", "str_path", "pd_target_column", "later_row_also_fails",
            "result_missing_empty_cell", "target_cell_changed", "pd_missing_is_na", "pd_strict_raised",
            "zero_rows", "fault_in_other_column", "ambiguous_mode_converted_cell", "file_larger_than_8k", "table_ge_40_rows",
-           "eol_crlf", "eol_lf", "eol_mixed", "no_final_line_terminator", "sep_explicit_tab", "relative_path", "pd_target_is_source", "pd_dtype_object", "pd_dtype_string", "pd_dtype_category", "pd_category_with_unused_categories", "pd_int_labels", "pd_int_labels_not_positions", "file_flags_left_to_defaults", "pd_flags_left_to_defaults", "cell_convertible_only_after_extension", "fault_in_header", "cell_with_unicode_line_boundary",
+           "eol_crlf", "eol_lf", "eol_mixed", "no_final_line_terminator", "sep_explicit_tab", "relative_path", "file_name_varied", "file_name_with_temp_or_backup_suffix", "pd_target_is_source", "pd_dtype_object", "pd_dtype_string", "pd_dtype_category", "pd_category_with_unused_categories", "pd_int_labels", "pd_int_labels_not_positions", "file_flags_left_to_defaults", "pd_flags_left_to_defaults", "cell_convertible_only_after_extension", "fault_in_header", "cell_with_unicode_line_boundary",
            "pd_index_custom", "pd_index_reversed", "pd_index_offset", "pd_index_duplicated", "pd_index_sliced"]
     )
 
@@ -80,6 +80,8 @@ class C16Machine(Machine):
             "ambiguous": rng.random() < 0.4,
             "path_kind": rng.choice(["str", "path", "str", "path", "relative"]),
             # shape of the input file: how its lines end, and whether the last line is terminated
+            "file_name": rng.choice([None, None, None, "t.tsv", "t.csv", "t", "t.tmp", "t.bak", "t.tsv.tmp", "t.tsv.bak",
+                                     ".t", "a.b.tsv", "with space.tsv", "sub/t.tsv", "t.new", "t.old", "t.tsv~"]),
             "eol": rng.choice(["crlf", "crlf", "lf", "lf", "mixed"]),
             "final_eol": rng.random() < 0.8,
             "p_nasty": rng.choice([0.2, 0.5, 0.9]),
@@ -228,7 +230,8 @@ class C16Machine(Machine):
         hdr, rows = self._table(rng, func)
         base = {"op": "file", "func": func, "header": cfg["header"], "hdr": hdr, "column": col, "sep": cfg["sep"],
                 "strict": st, "passthrough": pt, "ambiguous": amb, "path_kind": cfg["path_kind"], "fault": None,
-                "eol": cfg["eol"], "final_eol": cfg["final_eol"], "omit_defaults": rng.random() < 0.5}
+                "eol": cfg["eol"], "final_eol": cfg["final_eol"], "omit_defaults": rng.random() < 0.5,
+                "file_name": cfg["file_name"]}
         plan = []
         # fault-free configuration: no cell raises under the chosen flags
         ff_rows = copy.deepcopy(rows)
@@ -366,6 +369,8 @@ class C16Machine(Machine):
                     yield dict(copy.deepcopy(op), sep=None)
                 if op.get("path_kind") != "path":
                     yield dict(copy.deepcopy(op), path_kind="path")
+                if op.get("file_name"):
+                    yield dict(copy.deepcopy(op), file_name=None)
                 if op.get("eol", "crlf") != "crlf":
                     yield dict(copy.deepcopy(op), eol="crlf")
                 if not op.get("final_eol", True):
@@ -441,7 +446,11 @@ class C16Machine(Machine):
         if BAD.encode() in data:
             data = data.replace(BAD.encode(), BAD_BYTES)
         self.file_no += 1
-        path = os.path.join(self.dir, f"t{self.file_no}.tsv")
+        # every file lives in a directory of its own; its NAME is part of the input (suffixes such as
+        # .tmp / .bak are what a temp-file or backup scheme would collide with)
+        name = op.get("file_name") or f"t{self.file_no}.tsv"
+        path = os.path.join(self.dir, f"d{self.file_no}", name)
+        os.makedirs(os.path.dirname(path), exist_ok=True)
         with open(path, "wb") as f:
             f.write(data)
         return path, data
@@ -509,9 +518,12 @@ class C16Machine(Machine):
             getattr(conv, func)(arg, col, **fkw)
         except Exception as e:  # noqa: BLE001
             err = e
-        with open(path, "rb") as f:
-            after = f.read()
-        os.unlink(path)
+        try:
+            with open(path, "rb") as f:
+                after = f.read()
+        except FileNotFoundError:
+            after = None        # the file is gone: the worst way of not being what it was
+        shutil.rmtree(os.path.join(self.dir, f"d{self.file_no}"), ignore_errors=True)
 
         self.event(func)
         self.probe("header" if op["header"] else "no_header")
@@ -524,6 +536,10 @@ class C16Machine(Machine):
             self.probe("str_path")
         if op["sep"] == "\t":
             self.probe("sep_explicit_tab")
+        if op.get("file_name"):
+            self.probe("file_name_varied")
+            if op["file_name"].endswith((".tmp", ".bak", ".new", ".old", "~")):
+                self.probe("file_name_with_temp_or_backup_suffix")
         if not rows:
             self.probe("zero_rows")
         if len(before) > 8192:
@@ -532,6 +548,9 @@ class C16Machine(Machine):
             self.probe("table_ge_40_rows")
         fault = op.get("fault")
 
+        if after is None:
+            raise Violation(PROP, "file_deleted", site,
+                            {"exception": type(err).__name__ if err else None, "op": _short(op)})
         if err is not None:
             if after != before:
                 raise Violation(PROP, "atomicity", site,
